@@ -16,7 +16,7 @@ worker() {
   while read -r label patch checks; do
     i=$((i+1)); [ $(( (i-1) % n )) -eq $k ] || continue
     [ "$checks" = ALL ] && checks="C01 C02 C03 C04 C05 C06 C07 C08 C09 C10 C11 C12 C13 C14 C15 C16 C17 C18 C19 C20"
-    git -C $d/repo checkout -q -- . ; git -C $d/repo clean -fdq
+    git -C $d/repo reset -q --hard HEAD ; git -C $d/repo clean -fdq
     if ! git -C $d/repo apply "$patch" 2>/dev/null && ! git -C $d/repo apply -3 "$patch" 2>/dev/null; then echo "$label - PATCH-DOES-NOT-APPLY" >> "$out"; continue; fi
     if ! ( cd $d/repo && go build ./... ) 2>/dev/null; then echo "$label - BUILD-FAIL" >> "$out"; continue; fi
     for p in $checks; do
